@@ -264,3 +264,30 @@ fn canary_pending_inbound_always_admitted() {
     assert!(r.is_ok());
     std::mem::forget(r);
 }
+
+// ---- dependency-shim self test (vacuity guard for the guard) ----------------
+#[kani::proof]
+#[kani::unwind(8)]
+fn shim_selftest_nested_map_of_sets() {
+    let mut m: HashMap<u8, HashSet<ConnectionId>> = HashMap::new();
+    let k: u8 = kani::any();
+    let id = any_id();
+    let id2 = any_id();
+    kani::assume(id2 != id);
+    assert!(m.get(&k).is_none());
+    m.entry(k).or_default().insert(id);
+    assert!(m.get(&k).map_or(false, |s| s.contains(&id)));
+    assert!(m.get(&k).map_or(false, |s| !s.contains(&id2)));
+    assert!(m.len() == 1);
+    m.entry(k).or_default().insert(id2);
+    assert!(m.get(&k).map_or(0, |s| s.len()) == 2);
+    m.entry(k).or_default().remove(&id);
+    assert!(m.get(&k).map_or(false, |s| !s.contains(&id) && s.contains(&id2)));
+    let other: u8 = kani::any();
+    kani::assume(other != k);
+    m.entry(other).or_default().remove(&id);
+    assert!(m.len() == 2);
+    assert!(m.get(&other).map_or(false, |s| s.is_empty()));
+    assert!(m.remove(&k).is_some());
+    assert!(m.get(&k).is_none() && m.len() == 1);
+}
